@@ -65,15 +65,21 @@ func (a *atomizer) atom(cond ssa.Value) (string, bool) {
 					return sprintf("flag(%s&%s)", a.o(and.X), m[1]), true
 				}
 			}
-			if x.Op == token.NEQ || x.Op == token.GTR {
-				if _, isParam := lhs.(*ssa.Parameter); isParam {
-					return "anyflag(" + a.o(lhs) + ")", true
+			// the whole strategy word compared with zero: a parameter, possibly kept in a captured variable
+			isParam := false
+			if _, named := lhs.Type().(*types.Named); named {
+				if o := a.o(lhs); (strings.HasPrefix(o, "P(") || strings.HasPrefix(o, "P$")) && !strings.ContainsAny(o, ".,[") {
+					isParam = true
 				}
 			}
-			if x.Op == token.EQL {
-				if _, isParam := lhs.(*ssa.Parameter); isParam {
-					return "anyflag(" + a.o(lhs) + ")", false
-				}
+			if _, direct := lhs.(*ssa.Parameter); direct {
+				isParam = true
+			}
+			if isParam && (x.Op == token.NEQ || x.Op == token.GTR) {
+				return "anyflag(" + a.o(lhs) + ")", true
+			}
+			if isParam && x.Op == token.EQL {
+				return "anyflag(" + a.o(lhs) + ")", false
 			}
 		}
 		if k, ok := rhs.(*ssa.Const); ok && k.Value == nil {
@@ -183,21 +189,29 @@ func (a *atomizer) pathsDNF(from, to *ssa.BasicBlock, limit int) ([][]literal, b
 			return
 		}
 		if iff, isIf := b.Instrs[len(b.Instrs)-1].(*ssa.If); isIf {
-			// a boolean flag set on the way here: the branch is determined by the path
-			if phi, isPhi := iff.Cond.(*ssa.Phi); isPhi {
-				if v, known := phiVals[phi]; known {
-					if k, isK := v.(*ssa.Const); isK {
-						if constBool(k) {
-							walk(b, b.Succs[0], acc, seen)
-						} else {
-							walk(b, b.Succs[1], acc, seen)
-						}
-						return
-					}
+			// a boolean variable or short-circuit result set on the way here: the path says which value it has
+			cond := iff.Cond
+			for i := 0; i < 10; i++ {
+				phi, isPhi := cond.(*ssa.Phi)
+				if !isPhi {
+					break
 				}
+				v, known := phiVals[phi]
+				if !known {
+					break
+				}
+				cond = v
+			}
+			if k, isK := cond.(*ssa.Const); isK && k.Value != nil && k.Value.Kind() == constant.Bool {
+				if constBool(k) {
+					walk(b, b.Succs[0], acc, seen)
+				} else {
+					walk(b, b.Succs[1], acc, seen)
+				}
+				return
 			}
 			// a call of a loop-free boolean module helper is expanded into the helper's own paths
-			if hp, expanded := a.helperPaths(iff.Cond); expanded {
+			if hp, expanded := a.helperPaths(cond); expanded {
 				for _, h := range hp {
 					nacc := append(acc[:len(acc):len(acc)], h.lits...)
 					switch {
@@ -212,7 +226,7 @@ func (a *atomizer) pathsDNF(from, to *ssa.BasicBlock, limit int) ([][]literal, b
 				}
 				return
 			}
-			s, pos := a.atom(iff.Cond)
+			s, pos := a.atom(cond)
 			walk(b, b.Succs[0], append(acc, literal{s, pos}), seen)
 			walk(b, b.Succs[1], append(acc[:len(acc):len(acc)], literal{s, !pos}), seen)
 			return
